@@ -1,7 +1,7 @@
 SPEC = {
     "id": "C19",
     "props_file": "Props/C19.v",
-    "gen": [],
+    "gen": ["statelessapi"],
     "streams": [
         {"name": "merkle", "cmd": "stateless",
          "args": {"quick": ["-mode", "merkle", "-maxn", "33", "-full", "9", "-rounds", "1"],
@@ -10,15 +10,20 @@ SPEC = {
         {"name": "bind", "cmd": "stateless",
          "args": {"quick": ["-mode", "bind", "-rounds", "2"],
                   "thorough": ["-mode", "bind", "-rounds", "60"]},
-         "search_args": ["-mode", "bind", "-rounds", "40"]},
+         "search_args": ["-mode", "bind", "-rounds", "12"]},
+        {"name": "history", "cmd": "stateless",
+         "args": {"quick": ["-mode", "history", "-rounds", "4"],
+                  "thorough": ["-mode", "history", "-rounds", "60"]},
+         "search_args": ["-mode", "history", "-rounds", "20"]},
     ],
     "trusted_base": [
+        "harness/cmd/gen statelessapi (go/ast reader of go/consensus/cometbft/stateless: every function that calls the untrusted provider, the provider methods and package functions it calls; theorem stateless_api_covered pins the table and the model function covering each entry)",
         "Coq 8.16.1 kernel (coqc; coqchk in the thorough tier); no native_compute",
-        "harness/cmd/stateless + verif-tagged go/consensus/cometbft/stateless/export_verif.go (drives the real merkle.ProofsForTransactions / VerifyTransaction / RootHashOfTransactions and verifyBlock, verifyBlockResults, verifyTransactions, verifyTransactionProof, verifyNextValidators, verifyParameters, stateRootFromBlockTxs) + verif-tagged go/consensus/cometbft/light/export_verif.go (a light.Client over an in-memory trusted store preloaded with given light blocks and offline providers; used to drive the public Core API: GetBlock / GetTransactions / GetTransactionsWithProofs / GetParameters / GetValidators / SubmitTxWithProof / GetBlockResults / GetTransactionsWithResults / StateRoot at heights latest-2, latest-1, latest and unverifiable ones, with an untrusted provider stub)",
+        "harness/cmd/stateless + verif-tagged go/consensus/cometbft/stateless/export_verif.go (drives the real merkle.ProofsForTransactions / VerifyTransaction / RootHashOfTransactions and verifyBlock, verifyBlockResults, verifyTransactions, verifyTransactionProof, verifyNextValidators, verifyParameters, stateRootFromBlockTxs) + verif-tagged go/consensus/cometbft/light/export_verif.go (a light.Client over an in-memory trusted store preloaded with given light blocks and offline providers; plus light/export_verif_providers.go (a light.Client over in-memory CometBFT light block providers serving a chain of headers SIGNED by the harness / by the multiplexer genesis validators' consensus keys: the real CometBFT light verification runs, a forged light block is refused) and stateless/export_verif_core.go (handleNewBlock, latest block); used to drive the public Core API: GetBlock / GetTransactions / GetTransactionsWithProofs / GetParameters / GetValidators / SubmitTxWithProof / GetBlockResults / GetTransactionsWithResults / StateRoot at heights latest-2, latest-1, latest and unverifiable ones, with an untrusted provider stub)",
         "the harness as abstraction function: it decodes every (altered) response with the same CBOR / protobuf decoders the code uses and hands the decoded fields to the model (decoders are abstract in the model); error texts are mapped to a verdict enum",
         "verifharness/internal/muxdrv: blocks executed on the real ABCI multiplexer (signed transfers, proposer metadata transaction, real results and state) are wrapped into CometBFT-style headers by the harness (placeholder commit signatures) and fed to the same streams; state reads (GetParameters with the real light query factory over the executed state and a tampering read syncer) are checked by the harness oracle only",
         "vm_compute evaluation of Verif.Stateless.Merkle / Bind on the recorded cases with H instantiated by the finite table of (preimage, SHA-256 digest) pairs computed by the harness for that case (a missing entry yields a value that is not a byte string); case files use primitive 63-bit integer literals for byte strings (Stateless/Hex.v)",
-        "modelled, not driven by the harness: the LRU caches (a fresh Core per case), WatchBlocks / handleNewBlock, GetLatestHeight / resolveHeight(HeightLatest); not modelled: the light client's own header verification (CometBFT), protobuf / CBOR encodings, services.go",
+        "modelled, not driven by the harness: the Serve / watchBlocks goroutine and the pubsub broadcast (handleNewBlock itself is driven), GetStatus / GetNextBlockState (read the light client and verified state only), the exponential backoff of retryLightBlock; not modelled: the light client's own header verification (CometBFT), protobuf / CBOR encodings, services.go",
     ],
     "assumptions": [
         "the hash function has a fixed output length (premise H_len of the theorems; true of SHA-256); injectivity is never assumed, conclusions are '... or a collision of H is exhibited'",
@@ -29,6 +34,6 @@ SPEC = {
 
 MANIFEST = {
     "technique": "Coq proof (structural / fuel induction over the RFC-6962 style tree and the proof path; case analysis of the ported check chains) with differential correspondence check against the real merkle and stateless verification code",
-    "level_text": "Theorems in coq/Props/C19.v hold for every transaction list, index, proof and every hash function with fixed output length (collision-form conclusions): produced proofs verify; an accepted proof is for a transaction of the block (and at the stated index when total is the block's length); equal roots imply equal lists including length; acceptance by verifyBlock / verifyBlockResults / verifyTransactions / verifyNextValidators / verifyParameters implies equality of every compared field (or of the hashed data) with the light block's, any altered height is rejected, and the unbound fields are exactly listed. The model is tied to the code by running the real functions on all lists of 0..33 transactions with every index and ~35 kinds of altered proofs, and on recorded + constructed (block, light block, ...) tuples with every field-level alteration, comparing verdicts (and roots / proofs) with the model evaluated inside Coq; an independent oracle in the harness flags any accepted response whose bound projection differs from the honest one.",
+    "level_text": "Theorems in coq/Props/C19.v hold for every transaction list, index, proof and every hash function with fixed output length (collision-form conclusions): produced proofs verify; an accepted proof is for a transaction of the block (and at the stated index when total is the block's length); equal roots imply equal lists including length; acceptance by verifyBlock / verifyBlockResults / verifyTransactions / verifyNextValidators / verifyParameters implies equality of every compared field (or of the hashed data) with the light block's, any altered height is rejected, and the unbound fields are exactly listed; every public Core method hands out provider data only after its guard accepted it against a light-client verified light block (core_*_binds), the table of provider-backed functions and their guards is regenerated from the source and pinned (stateless_api_covered), and over ARBITRARY histories of calls on one Core -- LRU cache hits, evictions, changing provider answers, new blocks, latest-height queries -- every answer, every cache entry and the latest block are bound to verified headers (history_bound). The model is tied to the code by running the real functions on all lists of 0..33 transactions with every index and ~35 kinds of altered proofs, and on recorded + constructed (block, light block, ...) tuples with every field-level alteration, comparing verdicts (and roots / proofs) with the model evaluated inside Coq; an independent oracle in the harness flags any accepted response whose bound projection differs from the honest one; chains of headers signed by the harness / by the multiplexer validators' keys run the real CometBFT light verification behind Core.lightBlock, and histories of calls on one Core (cache hit / 127 vs 128 other entries / eviction) are replayed by the stateful model.",
     "level_note": "Trusted: Coq kernel; the harness (abstraction of Go values into model records, SHA-256 table) and the verif-tagged export wrapper. The Core-level wrappers that need a light client are modelled from the source but not driven. Decoders and the CometBFT light client are outside the model.",
 }
